@@ -10,8 +10,8 @@ def run(ctx):
                            extra_assume=["the IAVL root hash is a function of the ordered sequence of tree operations (the hooks record that sequence; two replicas must perform identical sequences)",
                                          "Go's sort.Sort is a correct sort; its instability cannot matter because the orders are total (C01_selection_unique); proposals carry fewer than 12 options (below that Go's pdqsort is an insertion sort, the model's)",
                                          "go-ethereum state trie and StateDBWrapper.Finish write to distinct accounts (commuting writes; see C17)"],
-                           profile="corpus replica noise",
-                           nontrivial_rule="every history is executed on two real nodes (separate directories; Go randomises map iteration per loop) and on a third one that also serves node-local mempool checks and queries: per-transaction answers, validator updates, application hashes, the tree operations of every ledger commit and the durable-write order must be identical, and every commit's tree operations must be 'removals, then sets in strictly descending key order'")
+                           profile="corpus replica noise restart",
+                           nontrivial_rule="every history is executed on two real nodes (separate directories; Go randomises map iteration per loop) on a third one that also serves node-local mempool checks and queries, and on a fourth one that is restarted from its data directory at block boundaries: per-transaction answers, validator updates, application hashes, the tree operations of every ledger commit and the durable-write order must be identical, and every commit's tree operations must be 'removals, then sets in strictly descending key order'")
     if res is None:
         return
     st = ctx.app_stats
@@ -29,6 +29,11 @@ def run(ctx):
                     "meaning": "the commit's tree operations are not 'removals, then sets in strictly descending key order', the order Ledger.v's commit has and the determinism argument relies on",
                     "searched": "two real replicas were run on every history of this check and compared: %d differences between them" % len(st.get("ReplicaDiffs") or [])},
                     nofail=not (st.get("ReplicaDiffs")))
+    # ... nor the process: a fourth replica is stopped and reopened on its data directory at block boundaries
+    for d in (st.get("RestartDiffs") or [])[:5]:
+        V.violation(ctx, "replicas-differ-after-restart", {"kind": "two-replicas-disagree", "what": d,
+                    "meaning": "a replica that was restarted from its data directory answered differently from one that kept running"})
+    common.patch_evidence(ctx, {"noisy_replicas": st.get("NoiseRuns", 0), "restarted_replicas": st.get("RestartRuns", 0), "restarts": st.get("Restarts", 0)})
     common.patch_evidence(ctx, {"replica_pairs": st.get("ReplicaRuns", 0), "commits_writing_two_or_more_keys_to_one_ledger": st.get("MultiKeyCommits", 0),
                                 "durable_write_order": st.get("WriteOrder")},
                           distinct=st.get("MultiKeyCommits", 0))
